@@ -365,6 +365,62 @@ fn run_case(
         ));
     }
 
+    // the old file behind a reader that was USED before it is handed to the patcher (read to its end to verify a
+    // checksum, partly read, or positioned by an earlier attempt): the old content is what the source holds, not
+    // where its cursor happens to stand. Every other applier above gets a fresh reader at position 0.
+    if !old.is_empty() {
+        let h = mix64(fnv64(&patch), old.len() as u64);
+        let n = old.len();
+        let mut starts: Vec<(&'static str, usize)> = vec![("read-to-end", n), ("seek", 1), ("partial-read", 1 + (h as usize) % n)];
+        if n > 1 {
+            starts.push(("seek", n - 1));
+        }
+        starts.dedup_by_key(|s| s.1);
+        for (i, (how, at)) in starts.into_iter().enumerate() {
+            let buf = [None, Some(1024usize), Some(4096)][(i + (h >> 40) as usize) % 3];
+            let components = (h >> 32).wrapping_add(i as u64) % 4 == 0;
+            loc.obs(&format!("stream.old_reader_not_at_start.{how}"), 1);
+            results.push((
+                "ZbsdiffPatcher(old-reader-used-before)",
+                buf,
+                guarded(|| {
+                    use std::io::{Read, Seek, SeekFrom};
+                    let mut rd = Cursor::new(old);
+                    match how {
+                        "seek" => {
+                            rd.seek(SeekFrom::Start(at as u64)).map_err(|e| format!("harness: {e}"))?;
+                        }
+                        "read-to-end" => {
+                            let mut sink = Vec::new();
+                            rd.read_to_end(&mut sink).map_err(|e| format!("harness: {e}"))?;
+                        }
+                        _ => {
+                            let mut sink = vec![0u8; at];
+                            rd.read_exact(&mut sink).map_err(|e| format!("harness: {e}"))?;
+                        }
+                    }
+                    debug_assert_eq!(rd.position(), at as u64);
+                    if components {
+                        let zd = ZbsDiff::parse(&patch).map_err(|e| e.to_string())?;
+                        let cb = zd.control_block().map_err(|e| e.to_string())?;
+                        let d = zd.diff_data().map_err(|e| e.to_string())?;
+                        let e = zd.extra_data().map_err(|e| e.to_string())?;
+                        let mut p = ZbsdiffPatcher::new(rd, zd.output_size());
+                        if let Some(bs) = buf {
+                            p = p.with_buffer_size(bs);
+                        }
+                        return p.apply_patch(&cb, &d, &e).map_err(|e| e.to_string());
+                    }
+                    let mut p = ZbsdiffPatcher::new(rd, out_size);
+                    if let Some(bs) = buf {
+                        p = p.with_buffer_size(bs);
+                    }
+                    p.apply_patch_from_data(&patch).map_err(|e| e.to_string())
+                }),
+            ));
+        }
+    }
+
     // buffer sizes at the largest diff/extra block of this patch (the patcher raises every size to >= 1024, so this
     // only matters for blocks larger than that): block fits exactly / by one byte / misses by one byte
     if max_block > 1024 {
@@ -1283,6 +1339,8 @@ fn main() {
         ("patch.has_negative_seek", "no patch with a negative seek was produced"),
         ("patch.has_positive_seek", "no patch with a positive seek was produced"),
         ("stream.diff_block_larger_than_buffer", "the streaming patcher never had to split a diff block over several buffer fills"),
+        ("stream.old_reader_not_at_start.read-to-end", "the streaming patcher was never handed an old-file reader that had been read to its end"),
+        ("stream.old_reader_not_at_start.seek", "the streaming patcher was never handed an old-file reader positioned away from the start"),
     ] {
         if ctx.get_obs(k) == 0 {
             ctx.inconclusive(&format!("{why} (observation {k} = 0)"));
